@@ -45,8 +45,6 @@ struct pafv_t
 {
 	hawk_val_t**       args;
 	hawk_oow_t         nargs;
-	const hawk_ooch_t* argspec;
-	hawk_oow_t         argspeclen;
 };
 
 #define DEFAULT_CONVFMT  HAWK_T("%.6g")
@@ -1762,8 +1760,6 @@ hawk_val_t* hawk_rtx_callfun (hawk_rtx_t* rtx, hawk_fun_t* fun, hawk_val_t* args
 
 	pafv.args = args;
 	pafv.nargs = nargs;
-	pafv.argspec = fun->argspec;
-	pafv.argspeclen = fun->argspeclen;
 
 	if (HAWK_UNLIKELY(rtx->exit_level >= EXIT_GLOBAL))
 	{
@@ -7106,27 +7102,12 @@ static hawk_oow_t push_arg_from_vals (hawk_rtx_t* rtx, hawk_nde_fncall_t* call, 
 
 	for (nargs = 0; nargs < pafv->nargs; nargs++)
 	{
-		if (pafv->argspec && (pafv->argspec[nargs] == 'r' || pafv->argspec[nargs] == 'R'))
-		{
-			hawk_val_t** ref;
-			hawk_val_t* v;
-
-			ref = (hawk_val_t**)&pafv->args[nargs];
-			v = hawk_rtx_makerefval(rtx, HAWK_VAL_REF_LCL, ref); /* this type(HAWK_VAL_REF_LCL) is fake */
-			if (HAWK_UNLIKELY(!v))
-			{
-				ADJERR_LOC (rtx, &call->loc);
-				return (hawk_oow_t)-1;
-			}
-
-			HAWK_RTX_STACK_PUSH (rtx, v);
-			hawk_rtx_refupval (rtx, v);
-		}
-		else
-		{
-			HAWK_RTX_STACK_PUSH (rtx, pafv->args[nargs]);
-			hawk_rtx_refupval (rtx, pafv->args[nargs]);
-		}
+		/* push the value itself even for a pass-by-reference parameter.
+		 * nothing copies a changed parameter back to the caller's array, and
+		 * a reference value pointing into that array would outlive the array
+		 * once the function stores the parameter in a variable or returns it. */
+		HAWK_RTX_STACK_PUSH (rtx, pafv->args[nargs]);
+		hawk_rtx_refupval (rtx, pafv->args[nargs]);
 	}
 
 	return nargs;
